@@ -156,6 +156,7 @@ func exploreOne(prog *Program, spec feSpec, multi bool, workers int, noRef bool,
 	if exploreMirror != nil && hasNumberField(m) {
 		m.in.mirror = true
 		m.in.mirrorFns = exploreMirror
+		m.in.digitFns = exploreDigitFns
 	}
 	for f := range m.in.tracked {
 		res.tracked = append(res.tracked, f)
